@@ -13,7 +13,7 @@ import logging
 
 VERIF = os.path.dirname(os.path.dirname(os.path.dirname(os.path.abspath(__file__))))
 LEAN_DIR = os.path.join(VERIF, "lean")
-DRIVER = os.path.join(LEAN_DIR, ".lake", "build", "bin", "driver")
+DRIVER = os.environ.get("BLDFM_DRIVER") or os.path.join(LEAN_DIR, ".lake", "build", "bin", "driver")   # override: tools/modelmut.py only
 
 os.environ.setdefault("BLDFM_VERIF", "1")
 
